@@ -29,6 +29,16 @@
    between, so a block-level interleaving semantics is adequate under sequential consistency at block
    granularity (this is the stated limit of the model, see notes.md).
 
+   A set the device REJECTS (script op b: binning 3, not a power of two) is modelled as the code has it:
+     simcam_set returns Device_Err at its very top -- no lock, no field touched (lines 379-382);
+     camera_set (hal/camera.c:93-96), case Device_Err:  camera_stop(self);  self->state = AwaitingConfiguration;
+       camera_stop does something only when the HAL state is Running: then it is simcam_stop, the SAME blocks as the
+       script op X (is_running = 0 | lock: trigger, notify, notify | join), pcs KStopLock true / KStopJoin true;
+       the Armed that camera_stop stores is overwritten by AwaitingConfiguration in the same block (no scheduling point
+       in between), and camera_set returns Device_Err (rc 1).
+     From AwaitingConfiguration the harness (like acquire_start) refuses S; a set the device accepts (e / d) stores
+     Armed again (camera_set: Device_Ok -> Armed unless Running).
+
    What `simcam_start` resets (fixes/01-simcam-start-clears-stale-trigger.patch applied; fix9 = true):
      is_running := 1; last_emitted_frame_id := -1; frame_id := -1; software_trigger.triggered := 0.
    It does NOT reset frame_wanted (and must not: a get_frame that is pending across a restart relies on it).
@@ -39,8 +49,9 @@ Open Scope Z_scope.
 
 Inductive HalState := HAwait | HArmed | HRunning.                 (* DeviceState_AwaitingConfiguration / Armed / Running *)
 
-(* controller script: S start, X stop, T execute_trigger, e/d set with enable = true/false, p pause *)
-Inductive KOp := KStart | KStop | KTrig | KSet (e : bool) | KPause.
+(* controller script: S start, X stop, T execute_trigger, e/d set with enable = true/false, p pause,
+   b set with settings the device REJECTS (binning 3: not a power of two; everything else as in force) *)
+Inductive KOp := KStart | KStop | KTrig | KSet (e : bool) | KPause | KRej.
 (* caller script: G get_frame, W wait until the HAL state is Running or the controller has finished *)
 Inductive COp := CGet | CWaitRun.
 
@@ -74,8 +85,10 @@ Inductive KPc :=
 | KTrigLock                  (* execute_trigger: lock_acquire (line 482) *)
 | KSetTrigLock (e : bool)    (* set, switching triggering off: the lock_acquire of the trigger it fires (line 388) *)
 | KSetLock (e : bool)        (* set: lock_acquire (line 393) *)
-| KStopLock                  (* stop: is_running already cleared; lock_acquire of its trigger (line 482, called from line 497) *)
-| KStopJoin                  (* stop: thread_join (line 501) *)
+| KStopLock (rej : bool)     (* stop: is_running already cleared; lock_acquire of its trigger (line 482, called from line 497) *)
+| KStopJoin (rej : bool)     (* stop: thread_join (line 501) *)
+                             (* rej = false: camera_stop called by the script op X;
+                                rej = true: camera_stop called by camera_set's Device_Err branch (script op b, hal/camera.c:93-96) *)
 | KExit | KDone.
 
 Inductive Ev :=
@@ -153,7 +166,14 @@ Definition lock_free (s : St) : bool :=
   end.
 
 (* the controller is inside camera_stop (the harness flag g_stopping) *)
-Definition in_stop (s : St) : bool := match kpc s with KStopLock | KStopJoin => true | _ => false end.
+Definition in_stop (s : St) : bool := match kpc s with KStopLock _ | KStopJoin _ => true | _ => false end.
+(* ... at the lock acquisition of stop's trigger, i.e. before its two notifications *)
+Definition at_stop_lock (s : St) : bool := match kpc s with KStopLock _ => true | _ => false end.
+(* How the camera_stop in progress ends.  rej = false (op X): camera_stop stores Armed and returns Device_Ok.
+   rej = true (op b): camera_stop stores Armed, then camera_set's error branch stores AwaitingConfiguration (no
+   scheduling point in between) and camera_set returns the device's Device_Err. *)
+Definition stop_hal (rej : bool) : HalState := if rej then HAwait else HArmed.
+Definition stop_ret (rej : bool) : Ev := if rej then EvRet KRej 1 else EvRet KStop 0.
 (* the controller has finished its script (the harness flag g_ctl_done) *)
 Definition ctl_done (s : St) : bool := match kpc s with KExit | KDone => true | _ => false end.
 Definition hal_running (s : St) : bool := match hal s with HRunning => true | _ => false end.
@@ -197,8 +217,17 @@ Definition kstep (s : St) : option (St * Label) :=
       | KStop =>
         match hal s with
         | HRunning =>                                                    (* simcam_stop: is_running = 0 (no lock) *)
-          Some (set_kpc KStopLock (set_running false s0), L [EvBegin o])
+          Some (set_kpc (KStopLock false) (set_running false s0), L [EvBegin o])
         | _ => Some (set_kpc (knext r) s0, L [EvBegin o; EvRet o 0])
+        end
+      | KRej =>
+        (* simcam_set: popcount(binning) != 1 -> Device_Err at its top, nothing touched, no lock taken (lines 379-382).
+           camera_set, case Device_Err:  camera_stop(self); self->state = DeviceState_AwaitingConfiguration;  *)
+        match hal s with
+        | HRunning =>                                                    (* camera_stop -> simcam_stop: is_running = 0 *)
+          Some (set_kpc (KStopLock true) (set_running false s0), L [EvBegin o])
+        | _ =>                                                           (* camera_stop does nothing; state = Await *)
+          Some (set_kpc (knext r) (set_hal HAwait s0), L [EvBegin o; EvRet o 1])
         end
       | KSet e =>
         let s1 := if e then s0 else set_gated false s0 in
@@ -217,22 +246,23 @@ Definition kstep (s : St) : option (St * Label) :=
     else None
   | KSetLock e =>
     if lock_free s then
-      (* properties = *settings (lines 393-434); camera_set: Device_Ok -> Armed unless Running *)
+      (* properties = *settings (lines 393-434); camera_set: Device_Ok -> Armed unless Running
+         (in particular AwaitingConfiguration -> Armed: a successful set re-arms the camera after a rejected one) *)
       let s1 := set_enable e s in
       let s2 := match hal s with HRunning => s1 | _ => set_hal HArmed s1 end in
       Some (set_kpc (knext (kscript s)) s2, mkLabel Ctl PLock OLock false [EvRet (KSet e) 0])
     else None
-  | KStopLock =>
+  | KStopLock rej =>
     if lock_free s then
       (* the trigger's critical section; then notify_all(frame_ready) WITHOUT the lock; then thread_join *)
       let s1 := set_cnot true (do_trigger s) in
-      if live s then Some (set_kpc KStopJoin s1, mkLabel Ctl PLock OLock false [])
-      else Some (set_kpc (knext (kscript s)) (set_hal HArmed s1), mkLabel Ctl PLock OLock false [EvRet KStop 0])
+      if live s then Some (set_kpc (KStopJoin rej) s1, mkLabel Ctl PLock OLock false [])
+      else Some (set_kpc (knext (kscript s)) (set_hal (stop_hal rej) s1), mkLabel Ctl PLock OLock false [stop_ret rej])
     else None
-  | KStopJoin =>
+  | KStopJoin rej =>
     match spc s with
-    | SDone => Some (set_kpc (knext (kscript s)) (set_hal HArmed (set_live false s)),
-                     mkLabel Ctl PJoin OStreamer false [EvRet KStop 0])
+    | SDone => Some (set_kpc (knext (kscript s)) (set_hal (stop_hal rej) (set_live false s)),
+                     mkLabel Ctl PJoin OStreamer false [stop_ret rej])
     | _ => None
     end
   | KExit => Some (set_kpc KDone s, mkLabel Ctl PExit ONone false [])
